@@ -298,6 +298,39 @@ type HInOutField struct {
 }
 type HPlain struct{ X int }
 
+// unexported fields that carry dig tags (must be rejected like any other
+// unexported field of an In/Out struct, whatever the tag says)
+type HOutUnexpGroup struct {
+	dig.Out
+	a *T0 `group:"g"` //nolint:unused
+	B *T1
+}
+type HOutUnexpName struct {
+	dig.Out
+	a *T0 `name:"a"` //nolint:unused
+	B *T1
+}
+type HOutUnexpFlatten struct {
+	dig.Out
+	a []*T0 `group:"g,flatten"` //nolint:unused
+	B *T1
+}
+type HInUnexpGroup struct {
+	dig.In
+	a []*T0 `group:"g"` //nolint:unused
+	B *T1
+}
+type HInUnexpOpt struct {
+	dig.In
+	a *T0 `optional:"true"` //nolint:unused
+	B *T1
+}
+type HInUnexpName struct {
+	dig.In
+	B *T1
+	a *T0 `name:"a"` //nolint:unused
+}
+
 // concrete types that implement error (dig treats such a result as the
 // function's error result): non-nilable kinds included
 type HErrVal struct{ X int }
@@ -351,6 +384,12 @@ func init() {
 	hostiles["HOutIn"] = reflect.TypeOf(HOutIn{})
 	hostiles["HInOutField"] = reflect.TypeOf(HInOutField{})
 	hostiles["HPlain"] = reflect.TypeOf(HPlain{})
+	hostiles["HOutUnexpGroup"] = reflect.TypeOf(HOutUnexpGroup{})
+	hostiles["HOutUnexpName"] = reflect.TypeOf(HOutUnexpName{})
+	hostiles["HOutUnexpFlatten"] = reflect.TypeOf(HOutUnexpFlatten{})
+	hostiles["HInUnexpGroup"] = reflect.TypeOf(HInUnexpGroup{})
+	hostiles["HInUnexpOpt"] = reflect.TypeOf(HInUnexpOpt{})
+	hostiles["HInUnexpName"] = reflect.TypeOf(HInUnexpName{})
 	hostiles["PPlain"] = reflect.TypeOf(&HPlain{})
 	hostiles["error"] = reflect.TypeOf((*error)(nil)).Elem()
 	hostiles["any"] = reflect.TypeOf((*interface{})(nil)).Elem()
